@@ -6,7 +6,7 @@ from coqrun import pb, tx
 from gen.util import ASCII_WS, NOT_WS, UNICODE_WS, cli_vs_model, rbytes, short
 
 NEEDS = dict(cli=True, harness=False, shim=False, release=False)
-RULE = ("hex encode: every single byte value, every length 0..300 then steps to 4096, random contents; "
+RULE = ("long texts with single- and multi-byte white space at every byte offset around 2^9..2^16 and periodically; hex encode: every single byte value, every length 0..300 then steps to 4096, random contents; "
         "hex decode: each of those re-spelled with random case / optional 0x / ASCII white space anywhere (must agree), "
         "Unicode white space (may refuse), plus malformed inputs (odd digit count, non-hex characters, double prefix, "
         "invalid UTF-8); a case is non-trivial and distinct by its (class, input bytes)")
@@ -109,6 +109,35 @@ def run(ctx):
             continue
         for t in layouts(rng, d, 1, unicode_ws=True):
             cases.append((t, d, "may", "layout/unicode-ws"))
+    # which non-ASCII white-space characters does the decoder treat as white space at all (probe: between two nibbles and at
+    # the end)?  Those must then be ignored ANYWHERE — in every position of texts of every length
+    probe = ctx.cli([dict(args=["hex", "decode"], stdin=("0x0" + w + "0 " + w).encode("utf8")) for w in UNICODE_WS])
+    ws_ok = [w for w, r in zip(UNICODE_WS, probe) if r.cls == "ok" and r.stdout == b"\x00"]
+    ctx.note("non-ASCII white space ignored by the decoder: %d of %d characters probed" % (len(ws_ok), len(UNICODE_WS)))
+    # long texts with (multi-byte) white space at and around every power-of-two byte offset, and periodically throughout
+    wsl = ASCII_WS[:3] + ws_ok
+    two = [w for w in ws_ok if len(w.encode("utf8")) == 2][:2]
+    three = [w for w in ws_ok if len(w.encode("utf8")) == 3]
+    three = rng.sample(three, min(len(three), 3))
+    for B in (512, 1024, 4096, 8192, 16384, 32768, 65536):
+        for w in [" "] + two + three:
+            wl = len(w.encode("utf8"))
+            for m in ((1, 2) if B <= 8192 or thorough else (1,)):
+                for off in range(m * B - wl - 1, m * B + 2):
+                    if off < 2:
+                        continue
+                    # the white-space character starts at byte offset `off` of the text: "0x" + (off-2) digits before it
+                    nd = off - 2
+                    total = nd + rng.randrange(2, 400)
+                    total += total % 2
+                    d = rbytes(rng, total // 2)
+                    h = d.hex()
+                    cases.append(("0x" + h[:nd] + w + h[nd:], d, "must", "layout/white-space-at-2^k-offset"))
+    for period, w in [(6, x) for x in three[:2]] + [(3, x) for x in two[:1]] + [(5, "\n"), (1, " ")]:
+        d = rbytes(rng, rng.randrange(30000, 40000) if period > 1 else 6000)
+        h = d.hex()
+        t = "0x" + "".join(h[i:i + period] + w for i in range(0, len(h), period))
+        cases.append((t, d, "must", "layout/periodic-white-space-long"))
     # ---------- decode: malformed ----------
     mal = ["0x0", "0", "abc", "0xzz", "zz", "0x0x00", "0x 0x00", "x00", "0x0g", "0xg0", "g", "0x00 0", "00-11", "0x00,11",
            "0x00\x0011", "\x00", "0x\x1c00", "00\x1f", "0x00" + NOT_WS[0], NOT_WS[2] + "0x00", "0x００", "0xé0", "é", "0x00é",
@@ -174,6 +203,8 @@ def run(ctx):
             cli_vs_model(ctx, "decode-vs-model", case, r, m, stdout_of=lambda f: f[0])
         elif zone == "may":
             cli_vs_model(ctx, "decode-vs-model(may)", case, r, m, stdout_of=lambda f: f[0], may_refuse=True)
+            if r.cls != "ok" and all(ch in ws_ok for ch in t if ord(ch) > 127):
+                ctx.violation("white-space-ignored-anywhere", case, short(want), dict(exit=r.cls, note="each of these characters is ignored in other positions"))
             if r.cls == "ok" and r.stdout != want:
                 ctx.violation("lenient-layout(unicode)", case, short(want), dict(exit=r.cls, stdout=short(r.stdout)))
         elif zone == "may-alt":
